@@ -2,6 +2,7 @@ package keyvalue
 
 import (
 	"context"
+	"errors"
 	"io"
 	"path"
 	"time"
@@ -77,7 +78,31 @@ func (fs *FS) getFile(path string) (*file, error) {
 		return nil, err
 	}
 	f.runOnceFileRecord.record, err = results[0].Record, results[0].Err
-	return &file{fileData: &f}, err
+	return &file{fileData: &f}, fs.notDirIfParentIsFile(path, err)
+}
+
+// notDirIfParentIsFile turns a "not exist" error for 'name' into ErrNotDir if one of its parents is a regular file, like the os package.
+func (fs *FS) notDirIfParentIsFile(name string, err error) error {
+	if !errors.Is(err, hackpadfs.ErrNotExist) {
+		return err
+	}
+	var parents []string
+	for parent := path.Dir(name); parent != "."; parent = path.Dir(parent) {
+		parents = append(parents, parent)
+	}
+	if len(parents) == 0 {
+		return err
+	}
+	results, getErr := getFileRecords(fs.store, parents)
+	if getErr != nil {
+		return err
+	}
+	for _, result := range results {
+		if result.Err == nil && result.Record != nil && !result.Record.Mode().IsDir() {
+			return hackpadfs.ErrNotDir
+		}
+	}
+	return err
 }
 
 // setFile write the 'file' data to the store at 'path'. If 'file' is nil, the file is deleted.
